@@ -385,7 +385,9 @@ func runRLWE(c *eng.Ctx, rc rlweCase) {
 			if !c.Check(len(e1) == 2 && len(e2) == 2, pre+"|not-degree-1-after-expansion", nil) {
 				return
 			}
-			c.Check(sameQP(e1[1], e2[1]), pre+"|not-reproducible", func() string { return fmt.Sprintf("component [%d][%d]: two expansions of the same compressed key differ", i, j) })
+			c.Check(sameQP(e1[1], e2[1]), pre+"|not-reproducible", func() string {
+				return fmt.Sprintf("component [%d][%d]: two expansions of the same compressed key differ", i, j)
+			})
 			c.Check(sameQP(e1[0], b0.Value[i][j][0]), pre+"|first-component-modified", nil)
 			c.Check(inRangeQP(e1[1], qm, pm), pre+"|out-of-range", nil)
 			for k := range e1[1].Q.Coeffs {
@@ -513,7 +515,9 @@ func runCRP(c *eng.Ctx, rc rlweCase, params rlwe.Parameters, evkp rlwe.Evaluatio
 				rng = false
 			}
 		}
-		c.Check(same, pre+"|not-reproducible", func() string { return fmt.Sprintf("two parties with the same CRS key obtain different polynomials (%d vs %d)", len(a), len(b)) })
+		c.Check(same, pre+"|not-reproducible", func() string {
+			return fmt.Sprintf("two parties with the same CRS key obtain different polynomials (%d vs %d)", len(a), len(b))
+		})
 		c.Check(diff, pre+"|distinct-keys-same-output", nil)
 		c.Check(rng, pre+"|out-of-range", nil)
 		c.Count("crp_polynomials_compared", int64(len(a)))
